@@ -23,8 +23,11 @@ LEVEL = "proof"
 PROPS = "PdshVerif.Props.C15"
 MANIFEST = dict(
     engine="hl",
-    technique="Lean 4 proof about the executable model of the hostlist parser (size limit of accepted ranges over "
-              "64-bit arithmetic, acceptance/refusal classes, totality) + differential correspondence of the real "
+    technique="Lean 4 proof about the executable model of the hostlist parser (for EVERY text: one equation for the "
+              "verdict on a range item with strtoul saturation, iff-characterisations of accepted / invalid / "
+              "too-many, refinement of the independent item reader, exact acceptance condition of a group, a token "
+              "and the whole call, counter exact and <= 16384 x text length, fuel sufficiency, explicit buffers) "
+              "+ differential correspondence of the real "
               "hostlist.c under ASan/UBSan and per-call resource limits against the compiled model + "
               "classification oracle from the property text",
     text="Theorems in lean/PdshVerif/Props/C15.lean about the parser model in lean/PdshVerif/Hostlist/Parse.lean; "
@@ -132,7 +135,8 @@ def run(ctx):
                    "numbers around 2^31, 2^32, 2^63, 2^64 and of 20-40 digits, stray/nested brackets, words of "
                    "1021..1025/4094..4097/8000 bytes, blank/sign shapes inside brackets, printf conversions (%s %n %d ...) inside "
                    "brackets (the diagnostic must quote them verbatim), 10239/10240/10241 ranges in one "
-                   "bracket; (thorough) all strings over {a,0,1,9,[,],-,,} up to length 7; non-trivial = contains a "
+                   "bracket; on the pdsh binary also `-q` (ranged listing, 1 KiB buffer) with numbers 500..4100 characters wide "
+                   "(safety only); (thorough) all strings over {a,0,1,9,[,],-,,} up to length 7; non-trivial = contains a "
                    "bracket or a digit run >= 10; distinct = distinct text"}
     dist = {}
     def stream():
@@ -147,6 +151,8 @@ def run(ctx):
             yield (gen_malformed(rng, wf, dist), "generated")
         if ctx.tier == "thorough":
             dist["exhaustive"] = 0
+            dist["exhaustive-scope"] = {"alphabet": "a 0 1 9 [ ] - ,", "lengths": "0..7",
+                                        "strings": sum(8 ** k for k in range(8))}
             for s in exhaustive(b"a019[]-,", 7):
                 dist["exhaustive"] += 1
                 yield (s, "exhaustive")
@@ -184,6 +190,8 @@ def run(ctx):
             rep = json.load(open(ctx.replay))
             if rep["case"].get("origin") == "cli":
                 cli_check(ctx, hl, dist, cov, only=unhx(rep["case"]["expr_hex"]))
+            elif rep["case"].get("origin") == "cli-q":
+                cli_check(ctx, hl, dist, cov, only_q=rep["case"]["expr_hex"])
     dist["probed-variant"] = hl.probed()
     cov["distribution"] = dist
     cov["traces_validated_against_impl"] = cov["evaluations"]
@@ -202,7 +210,7 @@ def run(ctx):
         checker_cmd="lake build PdshVerif.Props.C15 && #print axioms on every theorem of Props/C15.lean")
 
 
-def cli_check(ctx, hl, dist, cov, only=None):
+def cli_check(ctx, hl, dist, cov, only=None, only_q=None):
     """pdsh -Q -w TEXT: exit status and diagnostic class against the model, safety against the text"""
     rng = ctx.rng
     cli = Cli(ctx)
@@ -213,7 +221,9 @@ def cli_check(ctx, hl, dist, cov, only=None):
              b"a[18446744073709551614-18446744073709551615]", b"a[0-99999999999999999999]x", b"a[1]]", b"x" * 1023]
     nslow = 0
     cases = list(fixed) if only is None else [only]
-    n = (60 if ctx.quick() else 1500) if only is None else 0
+    if only_q:
+        cases = []
+    n = (60 if ctx.quick() else 1500) if only is None and not only_q else 0
     d2 = {}
     tries = 0
     while len(cases) < n and tries < 50 * n:
@@ -242,7 +252,7 @@ def cli_check(ctx, hl, dist, cov, only=None):
                 # business of C14 (its overflow, D14, can crash opt_list)
                 dist["cli-skipped-long-list"] = dist.get("cli-skipped-long-list", 0) + 1
                 continue
-        cls, hosts, trunc = cli.query(s.decode("latin1"), timeout=6)
+        cls, hosts, trunc = cli.query(s.decode("latin1"), timeout=20)
         case["pdsh"] = cls
         if m.startswith("ok | "):
             mcls = "ok" if int(m.split(" | ")[1]) > 0 else "nohosts"
@@ -273,6 +283,25 @@ def cli_check(ctx, hl, dist, cov, only=None):
                          "pdsh -w with a range larger than the limit: %s instead of the 'too many hosts' diagnostic" % cls,
                          case)
     dist["cli"] = ncli
+    if only is None or only_q:
+        # the OTHER listing of the working collective (`pdsh -q`: ranged form, fixed 1 KiB buffer) on texts whose
+        # numbers are wider than that buffer: whatever is printed, the text must be handled safely (no crash)
+        wide = [unhx(only_q)] if only_q else \
+            [b"n[" + b"0" * w + b"1-" + b"0" * w + b"2]" for w in (500, 1000, 1015, 1030, 2100, 4100)] + \
+            [b"n[" + b"0" * 1030 + b"1-" + b"0" * 1030 + b"2,7]x", b"n[1-3]," + b"a" * 1030 + b"[" + b"0" * 600 + b"1-2]"]
+        dist["cli-q-wide"] = 0
+        for s in wide:
+            for attempt in (0, 1):
+                rc, out, err = cli.run(["-q", "-w", s.decode("latin1")], timeout=20)
+                if rc != "timeout":
+                    break
+            cls = cli.diag(rc, err) if rc != 0 else "ok"
+            dist["cli-q-wide"] += 1
+            cov["evaluations"] += 1
+            if cls.startswith("crash") or cls == "timeout":
+                ctx.offender("cli-q-" + ("crash" if cls.startswith("crash") else "timeout") + ":wide-range",
+                             "pdsh -q -w TEXT (numbers %d characters wide): %s" % (max(len(m) for m in re.findall(rb"[0-9]+", s)), cls),
+                             {"text": s[:60].decode("latin1") + "..", "expr_hex": hx(s), "origin": "cli-q", "pdsh": cls})
 
 
 def load_corpus():
